@@ -139,10 +139,14 @@ CLAIMED = {
             "DESIGN.md §5 C07"),
     'C11': ("Executable Lean composition of the parser, transform, engine and totals models (`pipeline` op) + Lean composition laws + end-to-end correspondence with `python -m tally up` in fresh processes",
             "Proof: silent_source_neutral (a supplemental / missing / empty source leaves the report exactly as it is), source_local (the figures are those of the report without source s plus those of s alone), "
-            "setting_local, source_order_irrelevant, report_count — for ARBITRARY per-source parse-and-classify functions, from C06's permutation and partition theorems. The executable model "
-            "Pipeline.classifyRow / Driver.handlePipeline reproduces `tally up --format json` (merchants, categories, tags, counts exactly; money to the cent) on generated budgets.",
-            "PARTIAL: argparse, YAML loading, path resolution and printing are exercised end to end but not modelled; tokenisation is taken from the implementation (as C05); legacy-CSV rule budgets are covered "
-            "by the implementation oracles only (generator-truth count/sum/probe oracle, per-source locality, neutral sources); figures compared to the cent.",
+            "setting_local, source_order_irrelevant, report_count — for ARBITRARY per-source parse-and-classify functions, from C06's permutation and partition theorems; upLoop_eq_composition / up_report_eq_runUp "
+            "(the modelled cmd_run loop IS classify ∘ concat ∘ parse and its report IS runUp, for EVERY classifier: .rules engine, legacy CSV tuple loop, no rules), up_source_local, up_silent_source_neutral; "
+            "legacy_plain_ignores_supplemental / legacy_supplemental_query_only (a legacy budget without expression-shaped Pattern cells never reads the supplemental rows; kernel-checked counterexample "
+            "when one cell is expression-shaped); transform_sees_no_supplemental. The executable model Pipeline.upLoop ∘ Pipeline.classifyRow (driver op `pipeline`) reproduces `tally up --format json` "
+            "(merchants, categories, tags, counts exactly; money to the cent) on generated budgets of all three rule kinds.",
+            "PARTIAL: argparse, YAML loading, path resolution and printing are exercised end to end but not modelled; tokenisation is taken from the implementation (as C05); a legacy CSV rule file is LOADED by "
+            "the implementation (get_all_rules: csv.DictReader + parse_pattern_with_modifiers, as C14) and its tuples are classified by the model (Pipeline.classifyLegacy: _is_expression_pattern, evaluator, "
+            "regex oracle on the upper-cased description, Migrate.checkAll on exact doubles, _resolve_dynamic_tags, Rules.legacy); float rounding of `amount - v` in [amount=v] is modelled away (as C14); figures compared to the cent.",
             "DESIGN.md §5 C11"),
     'C16': ("Lean 4 theorems about the shared classification function and the discover grouping + three-command end-to-end oracle in fresh processes + model-vs-CLI correspondence for explain",
             "Proof: explain_eq_up (explain is classifyRow on the transaction built from a description and an amount — same rule mode, variables, lets, tag-only rules, transforms, supplemental rows), "
